@@ -2013,7 +2013,10 @@ func (x *actorSystem) ActorOf(ctx context.Context, actorName string) (*PID, erro
 	if pidnode, ok := x.actors.nodeByName(actorName); ok {
 		pid := pidnode.value()
 		// a nil value means the node is being deleted concurrently: the actor is gone
-		if pid == nil || pid.IsStopping() {
+		// a stopped actor stays in the tree until the death watch removes it, and
+		// IsStopping is false again once the stop has completed: only a started,
+		// not-stopping actor (running or suspended) is resolvable
+		if pid == nil || pid.IsStopping() || !pid.isStateSet(runningState) {
 			return nil, gerrors.NewErrActorNotFound(actorName)
 		}
 		return pid, nil
@@ -2090,7 +2093,7 @@ func (x *actorSystem) ActorExists(ctx context.Context, actorName string) (bool, 
 	if node, ok := x.actors.nodeByName(actorName); ok {
 		pid := node.value()
 		// a nil value means the node is being deleted concurrently: the actor is gone
-		if pid == nil || pid.IsStopping() {
+		if pid == nil || pid.IsStopping() || !pid.isStateSet(runningState) {
 			return false, nil
 		}
 		return true, nil
